@@ -749,4 +749,8 @@ def rule_setter(ctx):
 
 
 def rules(tier):
-    return [rule_route, rule_limits, rule_weights, rule_layout, rule_importance, rule_rowindex, rule_impurity, rule_setter, rule_majority]
+    from . import carry, c04
+    from . import precision
+    return [rule_route, rule_limits, rule_weights, rule_layout, rule_importance, rule_rowindex, rule_impurity, rule_setter, rule_majority,
+            carry.make_clone_rule("R-C14-clone", {"linfa_trees"}, 4), carry.make_setter_rule("R-C14-override", {"linfa_trees"}, 4), c04.make_carry_rule("R-C14-carry", {"DecisionTreeParams"}, 4),
+            precision.make_rule("R-C14-precision", lambda f: f["d"]["krate"] == "linfa_trees", 40, "linfa-trees")]
